@@ -94,7 +94,15 @@ def build_case(seed):
                                     number)
             lines.append(text)
     terminated = rng.random() < 0.7
-    return {"seed": seed, "cfg": prog.cfg, "prefix": prefix, "lines": lines, "eol": eol,
+    after = []
+    if rng.random() < 0.4:
+        pool = [("g", "G1 X35 Y35 E1", {}), ("at", "ExcludeRegion", "disable", False),
+                ("addr", {"type": "RectangularRegion", "id": "late", "x1": -500.0, "y1": -500.0,
+                          "x2": 500.0, "y2": 500.0}),
+                ("g", "G91", {}), ("g", "G20", {}), ("g", "G92 E7", {}), ("reset",), ("clear",),
+                ("g", "G1 X150 Y150 Z9", {}), ("g", "G10", {}), ("g", "M83", {})]
+        after = rng.sample(pool, rng.randint(1, 3))
+    return {"seed": seed, "after": after, "cfg": prog.cfg, "prefix": prefix, "lines": lines, "eol": eol,
             "terminated": terminated, "extras": extras}
 
 
@@ -114,9 +122,23 @@ def run_case(case, trace_id):
             if rig is live:
                 event.pop("st", None)
                 prefix_events.append(event)
+    proc = StreamProcessor(io.BytesIO(b""), live.handlers)
+    # the live print carries on between the creation of the processor and the moment the file
+    # is read: the processor must keep filtering from the state it was created from
+    for step in case.get("after", []):
+        if step[0] == "g":
+            live.gcode(step[1], step[2])
+        elif step[0] == "at":
+            live.at(step[1], step[2], step[3])
+        elif step[0] == "addr":
+            live.add_region(step[1])
+        elif step[0] == "reset":
+            live.state.resetState()
+        elif step[0] == "clear":
+            live.state.resetState(True)
+    # "isolated": reading the file must leave the live state as it is now
     before = alpha_state(live.state)
     regions_before = [r.toDict() for r in live.state.excludedRegions]
-    proc = StreamProcessor(io.BytesIO(b""), live.handlers)
     events = []
     count = len(case["lines"])
     for index, text in enumerate(case["lines"]):
